@@ -663,7 +663,16 @@ func (s *SpecValidator) validateParameters() *Result {
 	rexGarbledPathSegment := mustCompileRegexp(`.*[{}\s]+.*`)
 	for method, pi := range s.expandedAnalyzer().Operations() {
 		methodPaths := make(map[string]map[string]string)
-		for path, op := range pi {
+		// visit paths in a stable order: an overlapping path is reported against the first path seen with the same
+		// stripped form, so with 3 or more overlapping paths the reported pairs would otherwise depend on map iteration
+		paths := make([]string, 0, len(pi))
+		for path := range pi {
+			paths = append(paths, path)
+		}
+		sort.Strings(paths)
+
+		for _, path := range paths {
+			op := pi[path]
 			if s.Options.StrictPathParamUniqueness {
 				pathToAdd := pathHelp.stripParametersInPath(path)
 
